@@ -5,6 +5,7 @@ Case lines (a history is bracketed by `begin…`/`end`):
   begin  <origin> <rec>*          zone built by upserting the records in order, no journal
   beginj <origin> <rec>*          same, then `persist_to_journal` into an empty journal
   upd P <rec>* U <rec>*           verify_prerequisites → pre_scan → update_records(.., true)
+  updf P <rec>* U <rec>*          the same message, TSIG-signed on the wire, through ZoneHandler::update
   raw <rec>*                      update_records(.., true) alone (no prescan)
   pre <rec>*                      verify_prerequisites alone
   cut <k>                         recover a fresh handler from the first k journal rows
@@ -111,6 +112,17 @@ def step (s : State) (toks : List String) : State × String :=
         let r := updateJ s.cfg s.zone s.journal { prereqs := p, updates := u }
         let s' := { s with zone := r.1, journal := if s.journaled then r.2.1 else [] }
         (s', showStage r.2.2.1 ++ " " ++ showRes r.2.2.2 ++ " " ++ tail s')
+      | _, _ => (s, "bad-op")
+  | "updf" :: rest =>
+    -- the same message through `ZoneHandler::update` (signed, authorised): no stage in the answer
+    match splitPU rest with
+    | none => (s, "bad-op")
+    | some (p, u) =>
+      match p.mapM parseRec, u.mapM parseRec with
+      | some p, some u =>
+        let r := updateJ s.cfg s.zone s.journal { prereqs := p, updates := u }
+        let s' := { s with zone := r.1, journal := if s.journaled then r.2.1 else [] }
+        (s', "full " ++ showRes r.2.2.2 ++ " " ++ tail s')
       | _, _ => (s, "bad-op")
   | "raw" :: recs =>
     match recs.mapM parseRec with
